@@ -188,7 +188,10 @@ class Norm:
         """(sub-normaliser, returned expression) when n is a call that is read through: a field accessor (`T f() const
         { return field; }`) or a helper the reference tree did not have whose body is declarations of single-definition
         locals followed by one return"""
-        if n is None or n['k'] not in ('CallExpr', 'CXXMemberCallExpr') or self._depth > 5:
+        if n is None or self._depth > 5:
+            return None
+        is_lambda_call = n['k'] == 'CXXOperatorCallExpr' and n.get('op') == '()'
+        if n['k'] not in ('CallExpr', 'CXXMemberCallExpr') and not is_lambda_call:
             return None
         prog = self.f.prog
         callee = prog.funcs.get(n.get('callee', {}).get('fid'))
@@ -204,7 +207,7 @@ class Norm:
                 continue
             return None
         ks = kids(n)
-        args = [a for a in ks[1:]]
+        args = [a for a in (ks[2:] if is_lambda_call else ks[1:])]
         accessor = self.accessors and len(body) == 1 and not callee.params and callee.cls is not None
         if not (accessor or prog.is_new_function(callee)):
             return None
@@ -219,6 +222,9 @@ class Norm:
             else:
                 sub.subst[q['name']] = self.s(a)
         sub.this_prefix = self.this_prefix
+        if self.env.get('__targs__'):
+            sub.env['__targs__'] = 1
+        sub.val, sub.assume = self.val, self.assume
         if n['k'] == 'CXXMemberCallExpr' and ks and kids(ks[0]):
             obj = self.strip(kids(ks[0])[0])
             if obj['k'] == 'UnaryOperator' and obj.get('op') == '*':
@@ -532,9 +538,62 @@ class Norm:
         return self.names.get(out, out)
 
     # ---- conditions --------------------------------------------------------------------------------------------------------
+    def bool_body(self, n):
+        """(sub-normaliser, [condition nodes]) when n calls a helper/lambda the reference tree did not have whose body is
+        `if (c1) return true; if (c2) return true; ... return false;`: the call equals c1 || c2 || ..."""
+        if n is None or self._depth > 5:
+            return None
+        is_lambda_call = n['k'] == 'CXXOperatorCallExpr' and n.get('op') == '()'
+        if n['k'] != 'CallExpr' and not is_lambda_call:
+            return None
+        prog = self.f.prog
+        callee = prog.funcs.get(n.get('callee', {}).get('fid'))
+        if callee is None or callee.body is None or not prog.is_new_function(callee) or not callee.file.startswith(prog.root):
+            return None
+        body = kids(callee.body)
+        if len(body) < 2 or body[-1]['k'] != 'ReturnStmt' or self.cval(kids(body[-1])[0]) != 0 and True:
+            pass
+        conds = []
+        for st in body[:-1]:
+            if st['k'] != 'IfStmt':
+                return None
+            ks = kids(st)
+            if len(ks) != 2:
+                return None
+            r = ks[1] if ks[1]['k'] == 'ReturnStmt' else (kids(ks[1])[0] if ks[1]['k'] == 'CompoundStmt' and len(kids(ks[1])) == 1 else None)
+            if r is None or r['k'] != 'ReturnStmt' or (strip_casts(kids(r)[0]).get('cv') != 1):
+                return None
+            conds.append(ks[0])
+        last = body[-1]
+        if last['k'] != 'ReturnStmt' or strip_casts(kids(last)[0]).get('cv') != 0 or not conds:
+            return None
+        args = kids(n)[2:] if is_lambda_call else kids(n)[1:]
+        if len(args) != len(callee.params):
+            return None
+        sub = Norm(callee, {}, self.inline, self.names, self.accessors)
+        sub._depth = self._depth + 1
+        sub.val, sub.assume = self.val, self.assume
+        for q, a in zip(callee.params, args):
+            v = self.cval(a)
+            if v is not None:
+                sub.env[q['name']] = v
+            else:
+                sub.subst[q['name']] = self.s(a)
+        sub.this_prefix = self.this_prefix
+        if self.env.get('__targs__'):
+            sub.env['__targs__'] = 1
+        return sub, conds
+
     def flatten(self, n, op):
         """[(normaliser, node)] members of a conjunction/disjunction, reading through transparent calls"""
         m = self.resolve(n)
+        if op == '||':
+            bb = self.bool_body(m)
+            if bb is not None:
+                out = []
+                for c in bb[1]:
+                    out += bb[0].flatten(c, '||')
+                return out
         ex = self.expand(m)
         if ex is not None:
             return ex[0].flatten(ex[1], op)
